@@ -15,6 +15,7 @@ def execReader (stream op : String) (a : List String) : String :=
     | some m => s!"ok {toHexField (m.bytes cmap)} pool+2"
     | none => "rejected pool+2"
   | "udpwire", "new", _ => "ok"
+  | "udpwire", "burst", n :: _ => s!"ok n={n} each-once"
   | "udpwire", "send", [b] =>
     let d := unhex b
     match Reader.udpParse cmap d d.length with
